@@ -340,6 +340,9 @@ pub struct EpCfg {
     /// the publish service (servers) / protocol service (clients without router) is a hand-written `Service`
     /// whose `ready()` starts failing when the scenario calls `fail_readiness()` (termination cause "service
     /// readiness error")
+    /// v5: the publish handler decorates its acknowledgement with a reason string ("rs") and one 40-byte user property
+    /// (with a small peer Maximum Packet Size the encoder has to drop what does not fit - and say so in the lengths)
+    pub ack_decor: bool,
     pub ready_gate: bool,
     /// with `ready_gate`: how many times the explorer may make the publish service not ready for a while (the
     /// application's own back-pressure; inbound scenario event `Ev::Hold`)
@@ -387,6 +390,7 @@ impl EpCfg {
             client_connack_props: Vec::new(),
             tag: "EP",
             ready_gate: false,
+            ack_decor: false,
             holds: 0,
         }
     }
@@ -890,6 +894,7 @@ async fn v5_publish_handler(
     guard.finish();
     log.push(Rec::HExit { k, outcome: o });
     match o {
+        GateOutcome::Ok if cfg.ack_decor => Ok(p.ack().reason(bs("rs")).properties(|u| u.push((bs("k"), bs(&"v".repeat(40)))))),
         GateOutcome::Ok => Ok(p.ack()),
         GateOutcome::Err => Err(TErr::Plain),
         GateOutcome::Nack(c) => Err(TErr::Nack(c)),
